@@ -908,17 +908,38 @@ OUTPUT = {"token": "TokenGen.v", "range": "RangeGen.v",
           "cached": "CachedGen.v"}
 
 
+_PLUGINS_LOADED = []
+
+
+def load_plugins():
+    """further targets live in harness/py2v_<name>.py, each with a
+    register(TARGETS, OUTPUT) function (kept apart so that one target's
+    translator extensions cannot disturb another's generated text)"""
+    if _PLUGINS_LOADED:
+        return
+    _PLUGINS_LOADED.append(True)
+    import glob
+    import importlib
+    here = os.path.dirname(os.path.abspath(__file__))
+    if here not in sys.path:
+        sys.path.insert(0, here)
+    for path in sorted(glob.glob(os.path.join(here, "py2v_*.py"))):
+        mod = importlib.import_module(os.path.basename(path)[:-3])
+        mod.register(TARGETS, OUTPUT)
+
+
 def regenerate(names=None):
     """rewrite coq/gen/*.v from the current source; returns {target: error
     text or None}.  A target that cannot be translated loses its generated
     file, so every proof that depends on it stops compiling."""
     result = {}
+    load_plugins()
     for name in names or sorted(TARGETS):
         try:
             TARGETS[name]()
             result[name] = None
-        except (Unsupported, IndexError, KeyError, SyntaxError, OSError) \
-                as err:
+        except (Unsupported, IndexError, KeyError, SyntaxError, OSError,
+                AttributeError, TypeError, ValueError) as err:
             result[name] = "%s: %s" % (type(err).__name__, err)
             path = os.path.join(GEN, OUTPUT[name])
             if os.path.exists(path):
@@ -938,4 +959,7 @@ def main(argv):
 
 
 if __name__ == "__main__":
-    sys.exit(main(sys.argv[1:]))
+    # run as the module `py2v` so that plugins share this module's classes
+    sys.path.insert(0, os.path.dirname(os.path.abspath(__file__)))
+    import py2v as _self
+    sys.exit(_self.main(sys.argv[1:]))
